@@ -204,6 +204,7 @@ def judge_events(events, module="TraceJudge", workers=16, timeout=3600,
     for v in extract_printed(out, tag):
         verdicts[(v[1], v[2])] = v[3]
     expected = {(ev["tid"], m + 1) for ev in events
+                if ev.get("op") != "globals"
                 for m in range(len(ev["models"]))}
     if not completed or set(verdicts) != expected:
         tail = out[-3000:]
